@@ -692,6 +692,12 @@ func (fl *Flow) CallFailedAt(e *Event, m func(*ast.CallExpr) bool) bool {
 // facts = fewer distinct states; dropping facts only adds paths). It returns
 // false when the exploration bound was exceeded (the caller must fail closed).
 func (fl *Flow) ExplorePaths(keep func(k VarKey, f Fact) bool, visit func(e *Event, st State)) bool {
+	return fl.ExplorePathsMarked(keep, nil, visit)
+}
+
+// ExplorePathsMarked is ExplorePaths with path markers: when mark(e) returns a non-empty
+// name the fact "mark:<name>" is set on every path that has passed e (read with Marked).
+func (fl *Flow) ExplorePathsMarked(keep func(k VarKey, f Fact) bool, mark func(e *Event) string, visit func(e *Event, st State)) bool {
 	const bound = 400000
 	type item struct {
 		e  *Event
@@ -716,7 +722,7 @@ func (fl *Flow) ExplorePaths(keep func(k VarKey, f Fact) bool, visit func(e *Eve
 	project := func(st State) State {
 		out := State{}
 		for k, f := range st {
-			if keep == nil || keep(k, f) {
+			if keep == nil || keep(k, f) || (k.Root == nil && strings.HasPrefix(k.Path, "mark:")) {
 				out[k] = f
 			}
 		}
@@ -744,6 +750,12 @@ func (fl *Flow) ExplorePaths(keep func(k VarKey, f Fact) bool, visit func(e *Eve
 		}
 		visit(it.e, it.st)
 		out := fl.transfer(it.e, it.st)
+		if mark != nil {
+			if name := mark(it.e); name != "" {
+				out = out.clone()
+				out[VarKey{Path: "mark:" + name}] = Fact{Bool: 1}
+			}
+		}
 		for _, ed := range it.e.Succ {
 			st := out
 			if ed.Cond != nil {
@@ -892,4 +904,10 @@ func (fl *Flow) rangeVars() map[*ast.Ident]bool {
 		})
 	}
 	return fl.rangeIdents
+}
+
+// Marked reports whether the path leading to this state passed an event marked name.
+func Marked(st State, name string) bool {
+	_, ok := st[VarKey{Path: "mark:" + name}]
+	return ok
 }
